@@ -225,7 +225,7 @@ Qed.
 (* 2. the serialiser on the leaves of typed trees                       *)
 
 Notation a2j := (arg1_to_json T X).
-Notation l2j := (leaf_to_json T arg1 (arg1_to_json T X) arg1_raw).
+Notation l2j := (leaf_to_json T X arg1 (arg1_to_json T X) arg1_raw).
 
 (* ---- literal values ---- *)
 
@@ -554,6 +554,16 @@ Definition kws_raw := fix go (kws : list (string * arg1)) : res (list (pyval * p
   | (k', a) :: r => let* x := arg1_raw a in let* r' := go r in Ok ((VStr k', x) :: r')
   end.
 
+(* the values of a keyword mapping without "path" in its names: written at ITEM level (a literal list is
+   copied as it is, a literal mapping is escaped, a data path is written as its spec) *)
+Definition kws_item (cast : bool) := fix go (kws : list (string * arg1)) : res (list (pyval * pyval)) :=
+  match kws with
+  | [] => Ok []
+  | (k', a) :: r =>
+      let* x := match arg1_raw a with Ok v => item_to_json X cast v | Err _ => a2j cast a end in
+      let* r' := go r in Ok ((VStr k', x) :: r')
+  end.
+
 Definition kws_have_path (kws : list (string * arg1)) : bool :=
   existsb (fun ka => str_contains "path" (fst ka)) kws.
 
@@ -572,7 +582,7 @@ Definition args_json (sh : nat * bool * bool) (cast : bool) (l : leaf arg1) : re
     if kws_have_path (l_kwargs l) then
       let* items := kws_raw (l_kwargs l) in Ok (escape_map items)
     else
-      let* items := kws_json cast (l_kwargs l) in Ok (VDict items)
+      let* items := kws_item cast (l_kwargs l) in Ok (VDict items)
   else if va && (npk =? 0)%nat && negb kw then
     let* items := mapM (a2j cast) (l_args l) in Ok (VList items)
   else Err NotImplementedError.
@@ -722,16 +732,29 @@ Proof.
   rewrite IH. reflexivity.
 Qed.
 
+(* the item values of the fragment (JSON data, mappings without "path" keys) are written as they are;
+   only where no type conversion applies: under `cast` a list of types would be copied, not named
+   (see leaf_to_json_cast_items_counterexample below) *)
+Lemma kws_item_lit items : forallb (arg_ok false) (map snd items) = true ->
+  kws_item false (kmapL items) = Ok (map skv (kw_json false items)).
+Proof.
+  induction items as [|[k v] r IH]; cbn [map snd forallb]; intros H; [reflexivity|].
+  apply andb_true_iff in H as [Hv Hr]. cbn [arg_ok] in Hv. apply andb_true_iff in Hv as [Hj Hp].
+  unfold kmap. cbn [map fst snd kws_item arg1_raw]. fold (kws_item false). fold (kmapL r).
+  rewrite (item_to_json_pure v Hj (plain2_item2 v Hp)). cbn [bind]. rewrite (IH Hr). reflexivity.
+Qed.
+
 Lemma args_json_kw sh cast l items :
-  (sh = (2, false, false) \/ (sh = (0, false, true) /\ items_nopath items = true))%nat -> l_kwargs l = kmapL items ->
+  (sh = (2, false, false) \/ (sh = (0, false, true) /\ items_nopath items = true /\ cast = false))%nat ->
+  l_kwargs l = kmapL items ->
   forallb (arg_ok cast) (map snd items) = true ->
   args_json sh cast l = Ok (kwd (kw_json cast items)).
 Proof.
   intros Hs Hl Hv. unfold kwd. change (fun kv : string * pyval => (VStr (fst kv), snd kv)) with skv.
-  destruct Hs as [-> | [-> Hn]]; unfold args_json; cbn [Nat.eqb Nat.ltb Nat.leb negb andb orb]; rewrite Hl.
+  destruct Hs as [-> | [-> [Hn ->]]]; unfold args_json; cbn [Nat.eqb Nat.ltb Nat.leb negb andb orb]; rewrite Hl.
   - rewrite (kws_json_lit cast items Hv). reflexivity.
   - unfold items_nopath in Hn. apply negb_true_iff in Hn.
-    rewrite kws_have_path_lit, Hn, (kws_json_lit cast items Hv). reflexivity.
+    rewrite kws_have_path_lit, Hn, (kws_item_lit items Hv). reflexivity.
 Qed.
 
 Lemma args_json_star cast l vs :
@@ -742,26 +765,49 @@ Proof.
   rewrite Hl, (mapM_a2j cast vs Hv). reflexivity.
 Qed.
 
-Lemma args_json_form c q cast : q_items_nopath q = true -> forallb (arg_ok cast) (q_args q) = true ->
+(* items_contain( **items ): no type conversion *)
+Definition q_nocast (q : dsl) (cast : bool) : Prop :=
+  match q with Q_items_contain _ => cast = false | _ => True end.
+
+Lemma args_json_form c q cast : q_items_nopath q = true -> q_nocast q cast ->
+  forallb (arg_ok cast) (q_args q) = true ->
   args_json (q_shape q) cast (lmapL (expected_leaf c q)) = Ok (form_json cast (q_form q)).
 Proof.
-  rewrite q_args_form. intros Hn H.
-  destruct q; cbn [q_form form_args form_json q_shape] in *;
+  rewrite q_args_form. intros Hn Hc H.
+  destruct q; cbn [q_form form_args form_json q_shape q_nocast] in *;
     first [ apply args_json_zero
           | eapply args_json_one; [reflexivity|]; cbn [forallb] in H; rewrite andb_true_r in H; exact H
-          | apply args_json_kw; [first [left; reflexivity|right; split; [reflexivity|exact Hn]]|reflexivity|exact H]
+          | apply args_json_kw;
+              [first [left; reflexivity|right; split; [reflexivity|split; [exact Hn|exact Hc]]]|reflexivity|exact H]
           | apply args_json_star; [reflexivity|exact H] ].
 Qed.
+
+(* items_contain exists on the mapping classes Value and Key only: their keys `value.items_contain`,
+   `key.items_contain` contain neither "dtype" nor "is_instance" *)
+Lemma items_nocast c q : class_ok c q = true -> q_nocast q (casts c q).
+Proof. destruct q; try exact (fun _ => I). destruct c; try discriminate; reflexivity. Qed.
 
 (* what is written for a leaf *)
 Definition q_json_val (c : scls) (q : dsl) : pyval := form_json (casts c q) (q_form q).
 Definition leaf_json (c : scls) (q : dsl) : pyval := VDict [(VStr (leaf_key c q), q_json_val c q)].
 
-Lemma leaf_to_json_ok c q : q_items_nopath q = true -> forallb (arg_ok (casts c q)) (q_args q) = true ->
+Lemma leaf_to_json_ok c q : class_ok c q = true -> q_items_nopath q = true ->
+  forallb (arg_ok (casts c q)) (q_args q) = true ->
   l2j (lmapL (expected_leaf c q)) = Ok (leaf_json c q).
 Proof.
-  intros Hn H. rewrite leaf_to_json_expected, (args_json_form c q _ Hn H). reflexivity.
+  intros Hc Hn H. rewrite leaf_to_json_expected, (args_json_form c q _ Hn (items_nocast c q Hc) H). reflexivity.
 Qed.
+
+(* class_ok is needed: on a (non-existent) `dtype` class with items_contain the values are ITEMS of a
+   mapping, a list of types is copied as it is and not written as names *)
+Example leaf_to_json_cast_items_counterexample :
+  let q := Q_items_contain [("a", VList [VType TInt])] in
+  class_ok SValueDataType q = false /\ q_items_nopath q = true /\
+  forallb (arg_ok (casts SValueDataType q)) (q_args q) = true /\
+  l2j (lmapL (expected_leaf SValueDataType q))
+    = Ok (VDict [(VStr "value.dtype.items_contain", VDict [(VStr "a", VList [VType TInt])])]) /\
+  leaf_json SValueDataType q = VDict [(VStr "value.dtype.items_contain", VDict [(VStr "a", VList [VStr "int"])])].
+Proof. vm_compute. repeat split. Qed.
 
 (* where no type conversion applies, the canonical spec spelling itself is written *)
 Lemma leaf_json_spec c q : casts c q = false -> leaf_json c q = leaf_spec c q.
@@ -993,6 +1039,7 @@ Lemma cond_to_json_tree n : leaves_c11 n = true -> cond1_to_json T X (cmapL (con
 Proof.
   unfold cond1_to_json. induction n as [c q| |o a IHa b IHb]; intros H.
   - cbn [cond_of cond_map cond_to_json tree_json]. apply leaf_to_json_ok.
+    + destruct (leaf_in_c11_inv c q (leaves_c11_leaf c q H)) as [Hc _]. exact Hc.
     + exact (leaf_in_c11_nopath c q (leaves_c11_leaf c q H)).
     + exact (leaf_args_ok c q (leaves_c11_leaf c q H)).
   - reflexivity.
